@@ -125,12 +125,34 @@ def run_c18(scn, dev, expect, mons):
                     f"params {base.get('over')}: {type(e).__name__}: {e}")]
     b = harness.run_execution(dict(base, lenient=True), dev, opt=inst)
     finds = []
-    if (a.exc is None) != (b.exc is None) or (a.exc and a.exc[:2] != b.exc[:2]):
-        finds.append(('C18', f"C18|{o}|construction-paths-fail-differently", f"ctor(config): {a.exc}; "
-                      f"set_config_parameters: {b.exc}"))
-    elif canon_result(a.result) != canon_result(b.result):
-        finds.append(('C18', f"C18|{o}|construction-paths-run-differently",
-                      f"params {base.get('over')}: results differ"))
+
+    def compare(x, label):
+        if (a.exc is None) != (x.exc is None) or (a.exc and a.exc[:2] != x.exc[:2]):
+            finds.append(('C18', f"C18|{o}|construction-paths-fail-differently|{label}", f"ctor(config): {a.exc}; "
+                          f"{label}: {x.exc}"))
+        elif canon_result(a.result) != canon_result(x.result):
+            finds.append(('C18', f"C18|{o}|construction-paths-run-differently|{label}",
+                          f"params {base.get('over')}: results differ"))
+    compare(b, 'bare+set_config_parameters')
+    if scn.get('reconfigure'):
+        # the HyperTuner pattern: an instance built (and possibly already run) with the documented configuration is
+        # re-configured with d through set_config_parameters
+        stop_fields = {k: v for k, v in base.get('over', {}).items()
+                       if k in registry.BASE_FIELDS and k != 'population_size'}
+        fixture = registry.base_params(base['opt'], **stop_fields)
+        for used in (False, True):
+            try:
+                with seams.paused():
+                    inst2 = registry.OPTS[base['opt']](registry.config_class(base['opt'])(**fixture))
+                if used:
+                    harness.run_execution(dict(base, over=stop_fields, lenient=True, seed=4242), {}, opt=inst2)
+                with seams.paused():
+                    inst2.set_config_parameters(params)
+            except Exception as e:
+                finds.append(('C18', f"C18|{o}|reconfiguration-raises", f"{type(e).__name__}: {e}"))
+                continue
+            c = harness.run_execution(dict(base, lenient=True), dev, opt=inst2)
+            compare(c, 'built-with-fixture-then-reconfigured' + ('-after-a-run' if used else ''))
     return a, finds
 
 
